@@ -19,6 +19,7 @@ def spaces(tier):
         return [
             dict(family='observer', size=1, level=0, cfg='K0', t0=['empty', 'full', 'dir_d_j', 'file_d_e'], mut='all'),
             dict(family='chain3', size=3, level=0, cfg='K0', t0=['empty'], mut='outputs'),
+            dict(family='chain3', size=3, level=1, cfg='K0', t0=['empty'], mut='none'),
             dict(size=1, level=0, cfg='K0', t0=['empty', 'full', 'dir_d_j', 'file_d'], mut='all'),
             dict(size=1, level=1, cfg='K0', t0=['empty', 'full'], mut='all'),
             dict(size=1, level=2, cfg='K1', t0=['empty', 'dir_d_e'], mut='rel'),
@@ -70,6 +71,8 @@ def work(ctx, task):
         acc.count('programs')
         if sp['mut'] == 'all':
             muts = [None] + full
+        elif sp['mut'] == 'none':
+            muts = [None]
         elif sp['mut'] == 'outputs':
             muts = [None] + [[op, p] + (['A'] if op == 'w' else []) for p in sorted(set(gen.bf_paths(prog['root'])))
                              for op in ('del', 'w', 'f2d')]
